@@ -65,6 +65,8 @@ func (d c11) Generate(r *core.Rand, tier string, idx uint64) *core.Case {
 		return out
 	}
 	g.forcePushes = true
+	g.propagationByMembers = true
+	g.cfg.propagation = r.Chance(0.35)
 	g.generate()
 	c.Ops = g.b.ops
 	c.Config["nDev"] = cfg.nDev
